@@ -225,7 +225,7 @@ func (e *executor) Prepare(workflow *Workflow, workflowContext map[string][]byte
 	}, nil
 }
 
-func (e *executor) processInput(workflow *Workflow) (schema.Scope, error) {
+func (e *executor) processInput(workflow *Workflow) (typedInput schema.Scope, err error) {
 	scope, err := schema.DescribeScope().Unserialize(workflow.Input)
 	if err != nil {
 		return nil, &ErrInvalidWorkflow{fmt.Errorf("invalid workflow input section (%w)", err)}
@@ -234,6 +234,13 @@ func (e *executor) processInput(workflow *Workflow) (schema.Scope, error) {
 	if !ok {
 		return nil, fmt.Errorf("bug: unserialized input is not a scope")
 	}
+	defer func() {
+		// Linking the references of the scope panics if the root object or a referenced object does not exist.
+		if r := recover(); r != nil {
+			typedInput = nil
+			err = &ErrInvalidWorkflow{fmt.Errorf("invalid workflow input section (%v)", r)}
+		}
+	}()
 	typedInput.ApplySelf()
 	return typedInput, nil
 }
